@@ -3,6 +3,7 @@
 From MM Require Import Base.Num Model.InvCDF.
 From Coq Require Import Lqa Lia.
 Local Open Scope Q_scope.
+Unset Nra Cache.   (* no .nra.cache file next to the sources *)
 
 (* ---------- boolean comparisons ---------- *)
 Lemma Qleb_true a b : Qle_bool a b = true <-> a <= b.
@@ -550,4 +551,38 @@ Proof.
   intros [|[[x0 l0] v0] r] H; simpl in *; [discriminate|].
   repeat (apply Bool.andb_true_iff in H; destruct H as [H ?]).
   repeat split; [apply Qeqb_true | apply Qleb_true | apply pw_wfb_from_sound]; assumption.
+Qed.
+
+(* ================= discrete oracle ================= *)
+Lemma last_default_irrelevant : forall (A : Type) (l : list A) (a d1 d2 : A), last (a :: l) d1 = last (a :: l) d2.
+Proof. intros A. induction l as [|b l IH]; intros a d1 d2; [reflexivity|]. simpl in *. apply (IH b). Qed.
+
+(* disc_quantile returns the FIRST entry of the table whose cdf is >= t — every earlier entry is
+   below t — or, when no entry qualifies, the last support point *)
+Theorem disc_quantile_spec : forall tab t dflt,
+  (exists pre c post, tab = pre ++ (disc_quantile tab t dflt, c) :: post /\ t <= c /\
+                      forall k' c', In (k', c') pre -> c' < t)
+  \/ ((forall k' c', In (k', c') tab -> c' < t) /\ disc_quantile tab t dflt = last (map fst tab) dflt).
+Proof.
+  induction tab as [|[k c] r IH]; intros t dflt; simpl.
+  - right. split; [intros ? ? [] | reflexivity].
+  - destruct (Qle_bool t c) eqn:C.
+    + apply Qleb_true in C. left. exists [], c, r. split; [reflexivity|]. split; [assumption | intros ? ? []].
+    + apply Qleb_false in C. destruct (IH t k) as [(pre & c0 & post & E & Hc & Hpre) | (Hall & E)].
+      * left. exists ((k, c) :: pre), c0, post. split; [simpl; rewrite <- E; reflexivity|]. split; [assumption|].
+        intros k' c' [X|X]; [injection X as <- <-; assumption | eapply Hpre; eassumption].
+      * right. split.
+        -- intros k' c' [X|X]; [injection X as <- <-; assumption | eapply Hall; eassumption].
+        -- rewrite E. destruct r as [|[k2 c2] r2]; [reflexivity|]. simpl map. apply last_default_irrelevant.
+Qed.
+
+Lemma disc_table_keys : forall cdf cnt k, map fst (disc_table cdf k cnt) = map (fun i => (k + Z.of_nat i)%Z) (seq 0 cnt).
+Proof.
+  intros cdf. induction cnt as [|n IH]; intros k; simpl; [reflexivity|].
+  rewrite Z.add_0_r. f_equal. rewrite IH. rewrite <- seq_shift, map_map. apply map_ext. intros i. lia.
+Qed.
+Lemma disc_table_values : forall cdf cnt k k' c, In (k', c) (disc_table cdf k cnt) -> c == cdf k'.
+Proof.
+  intros cdf. induction cnt as [|n IH]; intros k k' c H; simpl in H; [contradiction|].
+  destruct H as [X|X]; [injection X as <- <-; apply Qred_correct | eapply IH; eassumption].
 Qed.
